@@ -793,3 +793,21 @@ Theorem convolve_spec_form m (K : RK) c (img bimg : list R) :
 Proof.
   intros R Hc Hl Hb. rewrite <- (convolver_bmask_is_blur_region m K c Hc) in *. now apply convolve_eq_map.
 Qed.
+
+(* ---- Kernel2D.convolved_array(_with_mask)_from with its own odd-kernel check ---- *)
+Theorem whole_checked_cases m (g : list (list R)) (K : RK) :
+  @convolved_array_checked ROps m g K =
+  if oddb (rows K) && oddb (cols K) then Ok (map (@conv_full ROps (@img_fun ROps g) K) (unmasked m))
+  else Raise KernelException.
+Proof.
+  unfold convolved_array_checked, convolved_array, oddb. cbn [T ROps].
+  destruct (rows K mod 2 =? 0), (cols K mod 2 =? 0); reflexivity.
+Qed.
+Theorem whole_checked_agrees m (K : RK) c (g : list (list R)) :
+  rectb m = true -> @convolver_init ROps m K = Ok c ->
+  @convolved_array_checked ROps m g K =
+  Ok (@convolve ROps c (@slim_of ROps g (unmasked m)) (@slim_of ROps g (unmasked (bmask c)))).
+Proof.
+  intros R Hc. destruct (init_ok_inv m K c Hc) as [O1 [O2 _]].
+  rewrite whole_checked_cases, O1, O2. cbn [andb]. f_equal. now apply whole_frame_agrees.
+Qed.
